@@ -882,13 +882,25 @@ pub fn many_types_sweep(col: &mut Collector) -> u64 {
             per_k!(k, mk_insert, &mut w);
         }
         for n in 1..=24usize {
-            per_k!(n - 1, mk_register, &mut t);
-            if n == repeat_at {
-                for r in [0, n / 2, n - 1] {
-                    per_k!(r, mk_register, &mut t);
+            let reg = catch_unwind(AssertUnwindSafe(|| {
+                per_k!(n - 1, mk_register, &mut t);
+                if n == repeat_at {
+                    for r in [0, n / 2, n - 1] {
+                        per_k!(r, mk_register, &mut t);
+                    }
                 }
-            }
+            }));
             cases += 1;
+            if let Err(p) = reg {
+                col.add(Finding {
+                    prop: "C17".into(),
+                    sig: "register-panicked".into(),
+                    msg: format!("registering type #{} (table of {} types{}) panicked: {}", n - 1, n, if n == repeat_at { ", then its first / middle / last type once more" } else { "" }, payload_str(&*p)),
+                    replay: json!({"kind":"c17-many-types","n":n,"repeat_at":repeat_at}),
+                    size: n,
+                });
+                break;
+            }
             let mut bad: Option<String> = None;
             let r = catch_unwind(AssertUnwindSafe(|| {
                 for k in 0..24usize {
